@@ -67,3 +67,29 @@ def grad_replay(prop, spec, model, leaf, index, F, G, out_shape_expr="out.shape"
     s += "if abs(R - F) > 1e-9 * scale:\n    print('REPRODUCED'); sys.exit(1)\n"
     s += "print('NOT-REPRODUCED'); sys.exit(0)\n"
     return s
+
+
+def defined_replay(prop, spec, model):
+    """runs the case at the model point and reports non-finite gradient entries (the operation is defined there)"""
+    s = HEADER.format(prop=prop)
+    s += "# case: %s (definedness)\n" % spec["name"]
+    for name, shape in spec.get("carrs", []):
+        s += "%s = %s\n" % (name, _lit(_arr(name, shape, model)))
+    if spec.get("setup"):
+        s += spec["setup"].rstrip() + "\n"
+    names = []
+    for ent in spec.get("leaves", []):
+        name, shape = ent[0], ent[1]
+        names.append(name)
+        layout = ent[2] if len(ent) > 2 else "C"
+        if layout == "F" and len(shape) >= 2:
+            s += "%s = mg.Tensor(%s.T)\n" % (name, _lit(_arr(name, tuple(shape)[::-1], model)))
+        else:
+            s += "%s = mg.Tensor(%s)\n" % (name, _lit(_arr(name, shape, model)))
+    s += spec["body"].rstrip() + "\n"
+    s += "out.backward()\n"
+    s += "bad = [(n, t.grad.tolist()) for n, t in %s if t.grad is not None and not np.all(np.isfinite(t.grad))]\n" % ("[" + ", ".join("(%r, %s)" % (n, n) for n in names) + "]")
+    s += "print('forward finite:', bool(np.all(np.isfinite(out.data))), 'non-finite gradients:', bad)\n"
+    s += "if bad and np.all(np.isfinite(out.data)):\n    print('REPRODUCED'); sys.exit(1)\n"
+    s += "print('NOT-REPRODUCED'); sys.exit(0)\n"
+    return s
